@@ -349,6 +349,14 @@ impl Check for C09 {
     }
 
     fn execute(&self, sc: &Sc, obs: &mut Obs) -> Vec<Violation> {
+        let threads = match sc {
+            Sc::Maker { threads, .. } | Sc::Pipeline { threads, .. } => *threads,
+        };
+        if obs.audit && threads > 0 {
+            // real OS threads: only the (schedule-independent) verdict takes part in the determinism audit
+            let mut scratch = Obs::default();
+            return self.execute(sc, &mut scratch);
+        }
         match sc {
             Sc::Maker { n, steps, draws, threads } => exec_maker(*n, steps, *draws, *threads, obs),
             Sc::Pipeline { n, bits, fail_at, threads, data_seed } => exec_pipeline(*n, *bits, *fail_at, *threads, *data_seed, obs),
